@@ -255,7 +255,7 @@ func runC01(c *mon.Ctx) {
 			continue
 		}
 		r := c.Rng("histories", i)
-		o := HistOpts{MaxOps: 60, AllowInvalid: true, AutoPIDs: true, BigAF: true, LongPayloads: i%4 == 0, RichHeaders: true, ManyPackets: i%3 == 0}
+		o := HistOpts{MaxOps: 60, AllowInvalid: true, AutoPIDs: true, BigAF: true, LongPayloads: i%4 == 0, RichHeaders: true, ManyPackets: i%3 == 0, ReuseAF: i%4 == 1}
 		if c.Thorough() {
 			o.MaxOps = 200
 		}
